@@ -201,5 +201,129 @@ def c03b(root):
     sub(p, "DenseValues(weight * values + mean.values)", "DenseValues(np.sqrt(weight) * values + mean.values)")
 ALL.update(c03a=c03a, c03b=c03b)
 
+
+
+def c13(root):
+    """Label-agnostic irregular data: positions for iteration/indexing, labels kept."""
+    p = f'{root}/FDApy/representation/argvals.py'
+    sub(p, """        new_argvals = {}
+        for el in argvals:
+            temp = len(new_argvals)
+            for key, values in el.items():
+                new_argvals[temp + key] = values
+        return IrregularArgvals(new_argvals)""", """        new_argvals = {}
+        for el in argvals:
+            for values in el.values():
+                new_argvals[len(new_argvals)] = values
+        return IrregularArgvals(new_argvals)""")
+    p = f'{root}/FDApy/representation/values.py'
+    sub(p, """        new_values = {}
+        for el in values:
+            temp = len(new_values)
+            for key, values in el.items():
+                new_values[temp + key] = values
+        return IrregularValues(new_values)""", """        new_values = {}
+        for el in values:
+            for value in el.values():
+                new_values[len(new_values)] = value
+        return IrregularValues(new_values)""")
+    p = f'{root}/FDApy/representation/functional_data.py'
+    # iterator yields observations keyed by their position
+    sub(p, """        if len(self._index) > 0:
+            idx = self._index.pop(0)
+            item = self._fdata[idx]
+            return item
+        else:
+            raise StopIteration""", """        if len(self._index) > 0:
+            label = self._index.pop(0)
+            position = self._position
+            self._position += 1
+            return IrregularFunctionalData(
+                IrregularArgvals({position: self._fdata.argvals[label]}),
+                IrregularValues({position: self._fdata.values[label]}),
+            )
+        else:
+            raise StopIteration""")
+    sub(p, """        self._fdata = fdata
+        self._index = list(fdata.argvals)
+
+    def __next__(self):""", """        self._fdata = fdata
+        self._index = list(fdata.argvals)
+        self._position = 0
+
+    def __next__(self):""")
+    # position-based selection, labels retained
+    sub(p, """        if isinstance(index, slice):
+            indices = index.indices(self.n_obs)
+            argvals = {obs: self.argvals.get(obs) for obs in range(*indices)}
+            values = {obs: self.values.get(obs) for obs in range(*indices)}
+        elif isinstance(index, np.ndarray):
+            argvals = {int(obs): self.argvals.get(obs) for obs in index}
+            values = {int(obs): self.values.get(obs) for obs in index}
+        else:
+            argvals = {index: self.argvals[index]}
+            values = {index: self.values[index]}""", """        labels = list(self.argvals.keys())
+        if isinstance(index, slice):
+            selected = labels[index]
+        elif isinstance(index, np.ndarray):
+            selected = [labels[int(obs)] for obs in index]
+        else:
+            selected = [labels[index]]
+        argvals = {label: self.argvals[label] for label in selected}
+        values = {label: self.values[label] for label in selected}""")
+    # results keyed by the labels of self
+    sub(p, """        obs_centered = {}
+        for idx, obs in enumerate(self):
+            obs_points = np.isin(
+                new_argvals["input_dim_0"], obs.argvals[idx]["input_dim_0"]
+            )
+            mean_obs = data_mean.values[0][obs_points]
+            obs_centered[idx] = obs.values[idx] - mean_obs""", """        obs_centered = {}
+        for idx, (label, obs) in enumerate(zip(self.argvals.keys(), self)):
+            obs_points = np.isin(
+                new_argvals["input_dim_0"], obs.argvals[idx]["input_dim_0"]
+            )
+            mean_obs = data_mean.values[0][obs_points]
+            obs_centered[label] = obs.values[idx] - mean_obs""")
+    sub(p, """        for idx, (obs, norm) in enumerate(zip(self, norm_val)):
+            new_values[idx] = obs.values[idx] / norm""", """        for idx, (label, obs, norm) in enumerate(
+            zip(self.argvals.keys(), self, norm_val)
+        ):
+            new_values[label] = obs.values[idx] / norm""")
+    sub(p, """        for idx, obs in enumerate(fdata):
+            obs_points = np.isin(
+                covariance.argvals["input_dim_0"], obs.argvals[idx]["input_dim_0"]
+            )
+            std_obs = np.sqrt(variance[obs_points])
+            obs_standardized[idx] = np.divide(""", """        for idx, (label, obs) in enumerate(zip(fdata.argvals.keys(), fdata)):
+            obs_points = np.isin(
+                covariance.argvals["input_dim_0"], obs.argvals[idx]["input_dim_0"]
+            )
+            std_obs = np.sqrt(variance[obs_points])
+            obs_standardized[label] = np.divide(""")
+
+
+def c14(root):
+    p = f'{root}/FDApy/representation/functional_data.py'
+    sub(p, "        new_dim = (self.basis.n_obs**2, *(2 * self.n_points))",
+           "        new_dim = (self.basis.n_obs**2, *np.repeat(self.n_points, 2))")
+
+
+ALL.update(c13=c13, c14=c14)
+
+
+
+def c13b(root):
+    """c13 without the consecutive relabelling in concatenate (a stable test pins labels 0,2)."""
+    import shutil, tempfile
+    for f in ['argvals.py', 'values.py']:
+        shutil.copy(f'{root}/FDApy/representation/{f}', f'{root}/FDApy/representation/{f}.orig')
+    c13(root)
+    for f in ['argvals.py', 'values.py']:
+        shutil.move(f'{root}/FDApy/representation/{f}.orig', f'{root}/FDApy/representation/{f}')
+
+
+ALL.update(c13b=c13b)
+
 if __name__ == '__main__':
     ALL[sys.argv[1]](sys.argv[2])
